@@ -27,6 +27,7 @@ PROPS = ["C%02d" % i for i in range(1, 21)]
 # a function the property is anchored in differs from the pinned tree (harness/fingerprint.py): directed escalation
 QUICK_MULT = int(os.environ.get("VERIF_QUICK_MULT", "3"))
 SOURCE_MULT = int(os.environ.get("VERIF_SOURCE_MULT", "3"))
+THOROUGH_MULT = int(os.environ.get("VERIF_THOROUGH_MULT", "5"))
 
 
 class Ctx:
@@ -52,7 +53,7 @@ class Ctx:
 
     # budget: number of generated cases
     def budget(self, quick, thorough):
-        n = quick * QUICK_MULT if self.tier == "quick" else thorough
+        n = quick * QUICK_MULT if self.tier == "quick" else thorough * THOROUGH_MULT
         return int(n * (4 if self.escalate else 1) * (SOURCE_MULT if self.source_changed else 1))
 
     def count(self, key, n=1):
@@ -184,7 +185,7 @@ def main(argv=None):
     if tier == "thorough" and ok_thm and os.environ.get("VERIF_NO_LEANCHECKER") != "1":
         import subprocess
         try:
-            p = subprocess.run(["lake", "env", "leanchecker", lean_module], cwd=common.LEAN_DIR,
+            p = subprocess.run(["lake", "env", "leanchecker", lean_module] + extra_modules, cwd=common.LEAN_DIR,
                                stdout=subprocess.PIPE, stderr=subprocess.STDOUT, timeout=3000)
             if p.returncode != 0:
                 broken.append({"obligation": "leanchecker %s" % lean_module,
